@@ -483,8 +483,7 @@ class Gen:
 def directed_family():
     """narrowing context x mutation site x use: the shapes DESIGN.md 'Search' asks for (small, deterministic)."""
     progs = []
-    decls = [(["opt", "Int"], ["i", "1"]), (["opt", "String"], ["s", "a"]), (["or", "Int", ["or", "String", "nil"]], ["i", "4"]),
-             (["opt", "Float"], ["f", "5", "1"]), (["opt", "bool"], "t")]
+    decls = [(["opt", "Int"], ["i", "1"]), (["or", "Int", ["or", "String", "nil"]], ["i", "4"]), (["opt", "bool"], "t")]
     conds = [("truthy", lambda v: (v, True)), ("notnil", lambda v: (["notnil", v], None)),
              ("not-else", lambda v: (["not", v], False)), ("isnil-else", lambda v: (["isnil", v], False))]
     for t, init in decls:
@@ -710,6 +709,10 @@ def run_probe_stream(ctx, elk, h, m, progs, tag):
                 ctx.fail(skey, "accepted program crashes the VM after a value left its static type:\n" + src + out.strip()[:300],
                          stream=PROBE, case=case, impl=cls, model="value outside static type predicted",
                          oracle="a value reaches an instruction chosen for a different type")
+            elif "opEqualInt" in out and has(prog, "f"):
+                ctx.fail("typed-opcode:float-equality-compiled-to-EQUAL_INT",
+                         "`==` with a Float receiver runs opEqualInt and dies:\n" + src + out.strip()[:300], stream=PROBE, case=case,
+                         impl=cls, model=status, oracle="a value reaches an instruction chosen for a different type")
             else:
                 m_ = re.search(r"\n([\w./*()]+)\(.*\n\t/repo/", out)
                 ctx.fail("go-panic:" + (m_.group(1).split("/")[-1] if m_ else "unknown"),
@@ -841,7 +844,7 @@ def run(ctx):
     elk = vlib.build_elk()
 
     # ---- c02.sub
-    vlib.value_stream(ctx, SUB, h, m, ctx.n(2000, 60000), sub_key,
+    vlib.value_stream(ctx, SUB, h, m, ctx.n(1200, 60000), sub_key,
                       "seeded type pairs over Int Float String bool Bool nil any never true false, int/float/string literal "
                       "types, t?, a|b (depth <= 3; tau drawn independently or as a widening/narrowing mutation of sigma, "
                       "both directions); observable = the real checker accepts `def f(y: sigma); var x: tau = y; end` "
@@ -854,9 +857,11 @@ def run(ctx):
     rng = ctx.rng(PROBE)
     corpus = load_corpus(os.path.join(vlib.ROOT, "corpus", "C02.probe.txt"))
     fam = [("d%d" % i, p, "directed") for i, p in enumerate(directed_family())]
+    if ctx.quick():
+        fam = fam[:40]      # the Int? and Int|String|nil contexts; the thorough tier runs all of them
     gen = []
     dist = {}
-    nprog = ctx.n(160, 5000)
+    nprog = ctx.n(45, 5000)
     for i in range(nprog):
         g = Gen(rng, flow=(i % 3 == 2))
         p = g.program()
